@@ -3,6 +3,7 @@
 //@ enforce: update_active_fd
 //@ replace: active_fd_get active_fd_put find_fd allocate_fd_reg_idx xpoll_fd_reg_mod xpoll_fd_reg_del has_ringing_bell
 //@ props: C04 C16 C08
+//@ safety: C08
 //@ expect: postcondition>=13 canary=6
 #include "_unit.h"
 void harness(void)
